@@ -56,7 +56,7 @@ P('C01', claimed=True, needs_driver=True, level='other',
   unreached=['acceptance by a real scsynth'])
 
 P('C02', claimed=True, needs_driver=True, level='other',
-  contracts=['synth_fmtrw', 'synth_writer', 'synth_synthdef_graph', 'synth_toposort', 'synth_outputs'], drivers=['vf.drivers.C02'],
+  contracts=['synth_fmtrw', 'synth_writer', 'synth_synthdef_graph', 'synth_toposort', 'synth_outputs', 'synth_defwriter'], drivers=['vf.drivers.C02'],
   level_text=('Discharged (pyvc, all inputs): byte lengths and value ranges of the primitive writers; the field '
               'sequence a unit writes (SynthObject._write_def: name, rate number, input count, output count, '
               'special index as i16, then exactly one input spec per input in order, then the output specs - '
@@ -110,7 +110,7 @@ P('C03', claimed=True, level='other', contracts=['base_utils', 'synth_ugen', 'sy
               'from {scalar, tuple, lists of length 1-3, nested, ChannelList, default} for the first 3 '
               'parameters; the law is relative to the single-channel call.'))
 
-P('C04', claimed=True, level='other', contracts=['synth_controls', 'synth_buildcontrols'], drivers=['vf.drivers.C04'],
+P('C04', claimed=True, level='other', contracts=['synth_controls', 'synth_buildcontrols', 'synth_defwriter'], drivers=['vf.drivers.C04'],
   level_text=('The slot-counter discipline the layout rests on is under contract (pyvc, all inputs): a control '
               'unit starts at the current length of the defaults array, appends exactly its own values and '
               'advances the slot counter by as much (Control/AudioControl/LagControl._init_ugen), the '
@@ -128,7 +128,11 @@ P('C04', claimed=True, level='other', contracts=['synth_controls', 'synth_buildc
               'the flattened defaults of exactly that group\'s names collected into a list of its own; the slot counter is '
               'read BEFORE the unit advances it and name j gets index = that value + widths of the names before it (ghost '
               'prefix sum), argument slot arg_num and the j-th reshaped output; lags name by name, wrapped to the width for '
-              'array defaults; prepended names pass their default and leave the name list. Everything else (reshape itself, name table/defaults/variants in the bytes, wiring of the '
+              'array defaults; prepended names pass their default and leave the name list. The definition writer '
+              'SynthDef._write_def (eight loop contracts): name, constants, count + EVERY default in slot order, count + '
+              'every non-prepended name with ITS first slot, count + every unit writing itself in table order, variant count, '
+              'and per variant a FRESH copy of the defaults made for that variant, the given values stored at <first slot of '
+              'the named control> + position, then "<def>.<variant>" and the full set of values of THAT copy. Everything else (reshape itself, name table/defaults/variants in the bytes, wiring of the '
               'body, call mapping) is checked on the emitted bytes with an independent SCgf reader for '
               'exhaustively enumerated signatures of up to 3 parameters and random ones up to 40 (bounded).'),
   level_note=('In the _build_controls contract the rate groups are uninterpreted sequences (that the five filter '
